@@ -5,7 +5,7 @@ EXTENDS Schema, SchemaGenCharts, Json
 CONSTANTS EmitAll   \* TRUE: print a CASE for every transition TLC generates (BFS); FALSE: only for
                     \* behaviours of full length (simulation)
 
-MCFixed   == {"a", "7", "world"}
+MCFixed   == {"a", "7", "world", "in"}
 MCVar     == {"$v"}
 MCNone    == {}
 MCKeys    == {"k1", "k2"}
@@ -29,15 +29,22 @@ Po(s, d, n) == [s |-> s, d |-> d, amt |-> n]
 
 \* hand-written charts:
 \*  1: world (no metadata), a (.self, k1=v1), a:$v digits-only (k1=v2, k2=v1)  -> a:x, zz rejected
-\*  2: no world: a (.self), a:7 (k2=v2)                                          -> world rejected
+\*  2: no world: a (.self), a:7 = grouping node (no .self) over a:7:in, a:$v pattern-less (k2=v2)
+\*     -> world rejected; a:7 rejected although its sibling $v would match "7" (a fixed child
+\*     shadows the variable one: Shadowed(chart, a:7)); a:x, a:42 accepted with default k2=v2
 HP(m, v1, v2) == [meta |-> m, kv |-> [k \in MCKeys |-> IF k = "k1" THEN v1 ELSE v2], rules |-> FALSE]
 HN(s, pt, pr) == [self |-> s, pat |-> pt, props |-> pr]
 MCCharts == <<
     (<< >> :> PlainNode) @@ (W :> PlainNode) @@ (A :> HN("empty", "none", HP(TRUE, "v1", "_")))
       @@ (<<"a", "$v">> :> HN("absent", "digits", HP(TRUE, "v2", "v1"))),
     (<< >> :> PlainNode) @@ (A :> HN("empty", "none", HP(FALSE, "_", "_")))
-      @@ (A7 :> HN("absent", "none", HP(TRUE, "_", "v2")))
+      @@ (A7 :> HN("absent", "none", HP(FALSE, "_", "_")))
+      @@ (<<"a", "7", "in">> :> HN("absent", "none", HP(FALSE, "_", "_")))
+      @@ (<<"a", "$v">> :> HN("absent", "none", HP(TRUE, "_", "v2")))
 >>
+
+\* the hand-written menu must contain a shadowed address (used as source, destination, metadata key)
+ASSUME Shadowed(MCCharts[2], A7)
 
 MCVersions == {"v1", "v2"}
 MCTplDefs  == [t \in {"t1"} |-> <<Po(W, A42, 1)>>]
@@ -46,26 +53,44 @@ MCSchemaMenu == {[k |-> "schema", v |-> "v1", chart |-> 1, tpls |-> FALSE],
                  [k |-> "schema", v |-> "v2", chart |-> 1, tpls |-> TRUE],
                  [k |-> "schema", v |-> "v2", chart |-> 2, tpls |-> FALSE]}
 MCVers   == {"", "v1", "v2", "v9"}
-MCBodies == {[tpl |-> "", post |-> <<Po(W, A7, 1)>>],
-             [tpl |-> "", post |-> <<Po(W, AX, 1)>>],
-             [tpl |-> "", post |-> <<Po(W, A, 1), Po(A, A7, 1)>>],
-             [tpl |-> "", post |-> <<Po(A7, A, 0)>>],
-             [tpl |-> "t1", post |-> << >>],
-             [tpl |-> "tx", post |-> << >>]}
+\* a:7 (shadowed under chart 2) is used as destination, as source, and as account-metadata key next
+\* to postings chart 2 accepts (a:x -> a)
+MCBodiesS == {[tpl |-> "", post |-> <<Po(W, A7, 1)>>],
+              [tpl |-> "", post |-> <<Po(W, AX, 1)>>],
+              [tpl |-> "", post |-> <<Po(A, A7, 0)>>],
+              [tpl |-> "", post |-> <<Po(A7, A, 0)>>],
+              [tpl |-> "", post |-> <<Po(AX, A, 0)>>],
+              [tpl |-> "t1", post |-> << >>],
+              [tpl |-> "tx", post |-> << >>]}
+MCBodies == MCBodiesS \cup {[tpl |-> "", post |-> <<Po(W, A, 1), Po(A, A7, 1)>>]}
+\* the script a request may carry next to a template id (never recorded: the template decides)
+MCOwn == <<Po(W, A42, 5)>>
 MCAMetaS == {{}, {[a |-> A7, kv |-> KV("r1", "_", "_")]}}
 MCAMetaL == MCAMetaS \cup {{[a |-> ZZ, kv |-> KV("_", "_", "r3")]},
                            {[a |-> A, kv |-> KV("_", "r2", "_")], [a |-> A42, kv |-> KV("r1", "_", "r3")]}}
-TxOf(vs, bs, ams) == {[k |-> "tx", ver |-> v, tpl |-> b.tpl, post |-> b.post, ameta |-> am] : v \in vs, b \in bs, am \in ams}
-MCTxMenuS == TxOf(MCVers, MCBodies, MCAMetaS)
-MCTxMenuL == TxOf(MCVers, MCBodies, MCAMetaL)
+TxOf(vs, bs, ams) == {[k |-> "tx", ver |-> v, tpl |-> b.tpl, post |-> b.post, ameta |-> am, via |-> "direct", own |-> FALSE] :
+                          v \in vs, b \in bs, am \in ams}
+\* transactions carried by a single-element bulk (atomic or not), including "template id + own script",
+\* and the same combination sent to POST /transactions (refused by the handler)
+MCBulk == {[k |-> "tx", ver |-> v, tpl |-> b.tpl, post |-> b.post, ameta |-> {}, via |-> vi, own |-> b.own] :
+               v \in {"v1", "v2"}, vi \in {"bulk", "bulkatomic"},
+               b \in {[tpl |-> "t1", post |-> << >>, own |-> TRUE], [tpl |-> "t1", post |-> << >>, own |-> FALSE],
+                      [tpl |-> "", post |-> <<Po(W, A7, 1)>>, own |-> FALSE]}}
+          \cup {[k |-> "tx", ver |-> "", tpl |-> "", post |-> <<Po(W, A7, 1)>>, ameta |-> {}, via |-> "bulk", own |-> FALSE],
+                [k |-> "tx", ver |-> "v2", tpl |-> "t1", post |-> << >>, ameta |-> {}, via |-> "direct", own |-> TRUE]}
+MCShadowBodies == {[tpl |-> "", post |-> <<Po(A, A7, 0)>>], [tpl |-> "", post |-> <<Po(AX, A, 0)>>]}
+MCTxMenuS == TxOf(MCVers, MCBodiesS \ MCShadowBodies, MCAMetaS)
+             \cup TxOf(MCVers, {[tpl |-> "", post |-> <<Po(A, A7, 0)>>]}, {{}})
+             \cup TxOf(MCVers, {[tpl |-> "", post |-> <<Po(AX, A, 0)>>]}, {{[a |-> A7, kv |-> KV("r1", "_", "_")]}})
+             \cup MCBulk
+MCTxMenuL == TxOf(MCVers, MCBodies, MCAMetaL) \cup MCBulk
 \* tiny menus of Schema_bfs3s.cfg (every behaviour of 3 requests: what a rejection leaves behind)
 MCSchemaMenu1 == {[k |-> "schema", v |-> "v1", chart |-> 1, tpls |-> FALSE]}
 MCTxMenuT == TxOf({"", "v1"}, {[tpl |-> "", post |-> <<Po(W, A7, 1)>>], [tpl |-> "", post |-> <<Po(W, AX, 1)>>]}, {{}})
 MCMetaMenu1 == {[k |-> "meta", ver |-> "v1", a |-> A7, kv |-> KV("m1", "_", "_")]}
 MCMetaMenu == {[k |-> "meta", ver |-> v, a |-> x.a, kv |-> x.kv] :
                    v \in MCVers, x \in {[a |-> A7, kv |-> KV("m1", "_", "_")], [a |-> ZZ, kv |-> KV("_", "_", "m3")]}}
-\* which deviations the implementation exhibits (checks/schema_common.py probes the real code and
-\* substitutes the matching one for Follow)
+\* values of Follow (the cfgs use MCFollowNone: behaviours continue through the literal outcomes only)
 MCFollowNone == {}
 MCFollowD1   == {"D1"}
 MCFollowD2   == {"D2"}
@@ -80,7 +105,7 @@ NodeSetOf(ch) == {[p |-> p, self |-> ch[p].self, pat |-> ch[p].pat, props |-> ch
 \* printed once: what every case of the run shares
 Header == [kind |-> "schemaheader",
            charts |-> [i \in 1..Len(ChartMenu) |-> NodeSetOf(ChartMenu[i])],
-           tpls |-> TplDefs, maxsteps |-> MaxSteps, requests |-> Cardinality(Reqs),
+           tpls |-> TplDefs, own |-> MCOwn, maxsteps |-> MaxSteps, requests |-> Cardinality(Reqs),
            \* the finite abstraction of regular expressions, checked by the harness against regexp.Match
            \* (same field names as the header of ChartGen.tla)
            addresses |-> Addrs, alphabet |-> UNION {{a[i] : i \in 1..Len(a)} : a \in Addrs},
